@@ -557,6 +557,8 @@ def refine_ensemble(V, stats, h, ev, X, LX, X_after):
             return None
         ok_any = False
         why = ""
+        if any(abs((d - 1) * math.log(zz_)) > 709.0 for _, zz_, _ in good_c):
+            stats["probe_stretch_exponent_gt_709"] += 1
         if COLLECT is not None and len(good_c) == 1 and good_c[0][2] < 1e-6:
             la_ = (d - 1) * math.log(good_c[0][1]) + (val - LX[i])
             if not math.isnan(la_):
@@ -864,6 +866,13 @@ def run_job(job):
         return _run_C(job)
     if layer == "D":
         return _run_D(job)
+    if layer == "A-big":
+        # one layer-A history far beyond the generated sizes (hundreds of parameters and walkers)
+        r = execute(dict(cfg=job["cfg"], ops=[["steps", int(job["steps"])]], faults=dict(tail_p=0.0, edge_u_p=0.0)))
+        st_ = collections.Counter(r["stats"])
+        st_["probe_ensemble_stretch_exponent_beyond_exp_range"] += st_.get("probe_stretch_exponent_gt_709", 0)
+        return dict(violations=r["violations"], stats=dict(st_), evaluations=int(st_.get("attempts_judged", 0)), digests=[digest(job)],
+                    nontrivial_ids=[digest(job)], sample=dict(job=dict(kind="ensemble", d=job["cfg"]["d"], walkers=job["cfg"]["n_walkers"])))
     raise ValueError(layer)
 
 
@@ -1027,6 +1036,12 @@ def stat_jobs(tier, seed):
             cfg["n_walkers"] = extra["n_walkers"]
             cfg["knobs"]["max_attempts"] = 100
         jobs.append(dict(layer="D", cfg=cfg, steps=(6000 if big else 2000) // (extra.get("n_walkers", 1)), seed=cfg["seed"], tag=kind + "-calibration"))
+    # hundreds of parameters, a wide stretch interval and heavy tails: (d-1) log z beyond +-709 while the ratio is moderate
+    dbig = 200
+    jobs.append(dict(layer="A-big", steps=6 if not big else 20, seed=(seed * 1000303) & 0x7FFFFFFF, tag="ensemble-200-parameters",
+                     cfg=dict(kind="ensemble", d=dbig, T=1.0, seed=(seed * 1000303) & 0x7FFFFFFF, display=False, target=dict(kind="cauchy", d=dbig),
+                              bounds=None, widths=[1.0] * dbig, epsilon=0.2, n_walkers=dbig + 12,
+                              knobs=dict(knobs, alpha=100.0, max_attempts=1, finite_diff=False))))
     return jobs
     return jobs
 
